@@ -158,27 +158,65 @@ pub fn oracle(args: &Args) {
             let n = args.u64("--n", 100);
             let seed = args.u64("--seed", 1);
             let max_plies = args.u64("--max-plies", 120);
+            // --long K: the first K games are kept alive on purpose (material conserved, a pawn move or capture
+            // before the 75-move rule would end the game, no fivefold repetition) and run to 820..2500 plies, so
+            // that the 'position' line is several kilobytes long - still a legal game a GUI can send
+            let long = args.u64("--long", 0);
             let roots = gen::corpus_roots();
             let mut rng = Rng::new(seed, 777);
             let mut made = 0;
             while made < n {
-                let from_start = rng.chance(1, 2);
+                let is_long = made < long;
+                let from_start = is_long || rng.chance(1, 2);
                 let root = if from_start { Pos::start() } else { rng.pick(&roots).clone() };
                 let mut p = root.clone();
                 let mut moves: Vec<String> = vec![];
-                let len = match rng.below(6) {
-                    0 => 0,
-                    1 => rng.below(8),
-                    5 => max_plies * 4,
-                    _ => rng.below(max_plies),
+                let len = if is_long {
+                    820 + rng.below(1700)
+                } else {
+                    match rng.below(6) {
+                        0 => 0,
+                        1 => rng.below(8),
+                        5 => max_plies * 4,
+                        _ => rng.below(max_plies),
+                    }
                 };
                 let mut feats = std::collections::BTreeSet::new();
+                let mut seen: std::collections::HashMap<String, u32> = std::collections::HashMap::new();
                 for _ in 0..len {
                     let legal = p.legal_moves();
                     if legal.is_empty() || p.hmc >= 140 {
                         break;
                     }
-                    let m = gen::pick_move(&p, &legal, &mut rng);
+                    let mut m = gen::pick_move(&p, &legal, &mut rng);
+                    if is_long {
+                        let is_pawn = |x: &Mv| matches!(p.b[x.from as usize], Some(pc) if pc.k == Kind::P);
+                        let resets: Vec<Mv> = legal.iter().copied().filter(|x| x.capture || is_pawn(x)).collect();
+                        let keeps: Vec<Mv> = legal.iter().copied().filter(|x| !x.capture && !is_pawn(x)).collect();
+                        let mut chosen = None;
+                        for _try in 0..12 {
+                            let c = if p.hmc >= 100 && !resets.is_empty() {
+                                *rng.pick(&resets)
+                            } else if !keeps.is_empty() && rng.chance(19, 20) {
+                                *rng.pick(&keeps)
+                            } else {
+                                *rng.pick(&legal)
+                            };
+                            let n = p.make(c);
+                            let key = n.to_fen(EpConv::Legal).rsplitn(3, ' ').last().unwrap_or("").to_string();
+                            if n.legal_moves().is_empty() || seen.get(&key).copied().unwrap_or(0) >= 3 {
+                                continue;
+                            }
+                            *seen.entry(key).or_insert(0) += 1;
+                            chosen = Some(c);
+                            break;
+                        }
+                        match chosen {
+                            Some(c) => m = c,
+                            None => break,
+                        }
+                        feats.insert("long_game");
+                    }
                     if m.castle {
                         feats.insert("castle");
                     }
